@@ -13,10 +13,11 @@ def write_and_run(root, prop, v, repo_dir):
                solver_model=v.get("model"), smt2=v.get("smt2"), replay=None)
     confirmed = False
     harness = os.path.join(root, "replay", "run_replay.py")
-    if os.path.exists(harness) and v.get("witness") is not None:
+    if os.path.exists(harness) and v.get("witness") is not None and v.get("harness"):
         try:
-            r = subprocess.run(["/venv/bin/python", harness, "--unit", v["unit"], "--clause", v["clause"],
-                                "--witness", json.dumps(v["witness"]), "--repo", repo_dir],
+            r = subprocess.run(["/venv/bin/python", harness, "--harness", v["harness"], "--unit", v["unit"],
+                                "--clause", v["clause"], "--witness", json.dumps(v["witness"], default=str),
+                                "--repo", repo_dir],
                                capture_output=True, text=True, timeout=120,
                                env=dict(os.environ, PYTHONPATH=repo_dir))
             rec["replay"] = dict(rc=r.returncode, stdout=r.stdout[-3000:], stderr=r.stderr[-2000:])
